@@ -284,16 +284,26 @@ def sync_order_rule(ctx, rid, cls="Harvester"):
         tag = "in-memory data %s" % ("present" if mem == NOTNONE else "absent")
         loads = [(n, c) for n, c, nm in all_calls(ctx, f, g) if nm == "%s.%s.%s" % (FARM, cls, lname) and n.id in fl.visited]
         saves = [(n, c) for n, c, nm in all_calls(ctx, f, g) if nm == "%s.%s.%s" % (FARM, cls, sname) and n.id in fl.visited]
-        def _is_merge(n):
-            if not (n.kind == "stmt" and isinstance(n.ast, ast.Assign)):
-                return False
-            if norm(n.ast.targets[0]) == newv:
+        def _merge_call(c, depth=0):
+            if isinstance(c, ast.Call) and isinstance(c.func, ast.Attribute) and c.func.attr in ("concat", "merge", "combine_first", "copy") and \
+                    ("new_d" in norm(c) or attr in norm(c)):
                 return True
-            for c in ast.walk(n.ast.value):
-                if isinstance(c, ast.Call) and isinstance(c.func, ast.Attribute) and c.func.attr in ("concat", "merge", "combine_first", "copy") and \
-                        ("new_d" in norm(c) or attr in norm(c)):
+            # a helper method of the same class that does the merging
+            if isinstance(c, ast.Call) and isinstance(c.func, ast.Attribute) and norm(c.func.value) == "self" and f.cls is not None and c.func.attr in f.cls.methods and depth < 2 \
+                    and c.func.attr not in (lname, sname):
+                hm = f.cls.methods[c.func.attr]
+                if any(isinstance(x, ast.Call) and isinstance(x.func, ast.Attribute) and x.func.attr in ("concat", "merge", "combine_first") for x in ast.walk(hm.node)):
+                    ctx.touch(hm)
                     return True
             return False
+
+        def _is_merge(n):
+            if n.kind != "stmt" or not isinstance(n.ast, (ast.Assign, ast.Expr, ast.Return)):
+                return False
+            if isinstance(n.ast, ast.Assign) and norm(n.ast.targets[0]) == newv:
+                return True
+            val_ = n.ast.value
+            return val_ is not None and any(_merge_call(c) for c in ast.walk(val_))
         merges = [n for n in g.nodes if n.id in fl.visited and _is_merge(n)]
         stores = [n for n in g.nodes if n.id in fl.visited and n.kind == "stmt" and isinstance(n.ast, ast.Assign) and any(path_key(t) == "self." + attr for t in n.ast.targets) and not _is_merge(n)]
         if not loads or not all(g.completes_before(loads[0][0].id, m.id, feasible=fl.feasible) for m in merges) or not merges:
@@ -314,8 +324,10 @@ def sync_order_rule(ctx, rid, cls="Harvester"):
             rr.bad(ctx.finding(rid, f, f.node, "with sync, %s does not save after merging on every normal path" % mname, construct="no-save-after-merge"), "%s saves [%s]" % (mname, tag))
         else:
             sv = arg(saves[0][1], 0)
-            merged_into_self = any(any(path_key(t) == "self." + attr for t in m.ast.targets) for m in merges)
-            if (sv is None and not merged_into_self) or (sv is not None and norm(sv) != newv and not _expands_to(f, sv, {newv})):
+            merged_into_self = any(any(path_key(t) == "self." + attr for t in getattr(m.ast, "targets", [])) for m in merges)
+            if sv is not None and _merge_call(sv):
+                rr.ok("%s [%s]: %s(<merged by %s>) after the reload" % (mname, tag, sname, norm(sv.func)))
+            elif (sv is None and not merged_into_self) or (sv is not None and norm(sv) != newv and not _expands_to(f, sv, {newv})):
                 rr.bad(ctx.finding(rid, f, saves[0][1], "%s saves `%s`, not the merged data" % (mname, norm(sv) if sv else None), construct="save-arg"), "%s save arg" % mname)
             else:
                 rr.ok("%s [%s]: %s(%s) after the merge on every normal path" % (mname, tag, sname, newv))
@@ -345,6 +357,9 @@ def sync_order_rule(ctx, rid, cls="Harvester"):
                                                                              or all(gs.completes_before(n.id, s.id, feasible=fl2.feasible) for n, c in sv if n.id in fl2.visited))]
         if okst:
             rr.ok("%s: memory := new data, then exactly that object is saved (memory = disk)" % sname)
+        elif not st and any(isinstance(c_, ast.Call) and isinstance(c_.func, ast.Attribute) and norm(c_.func.value) == "self" and c_.func.attr in sf.cls.methods and
+                            any(isinstance(x_, ast.Assign) and any(path_key(t_) == "self." + attr for t_ in x_.targets) for x_ in ast.walk(sf.cls.methods[c_.func.attr].node)) for c_ in ast.walk(sf.node)):
+            raise AnalysisError("idiom changed: %s stores self.%s through a helper method" % (sname, attr))
         else:
             rr.bad(ctx.finding(rid, sf, sf.node, "%s does not store the new data in memory before saving `self.%s`: disk and memory diverge" % (sname, attr), construct="save-identity"), "%s identity" % sname)
     else:
@@ -364,6 +379,9 @@ def through_save_rule(ctx, rid):
         derived = {norm(n.ast.targets[0]) for n in g.nodes if n.kind == "stmt" and isinstance(n.ast, ast.Assign) and ("self.full_ds" in norm(n.ast.value) or "self._full_ds" in norm(n.ast.value))}
         if sv and g.completes_before(sv[0][0].id, g.exit.id, feasible=fl.feasible) and sv[0][1].args and norm(sv[0][1].args[0]) in derived:
             rr.ok("%s saves the new dataset through save_full_ds" % mname)
+        elif not sv and any(isinstance(c_, ast.Call) and isinstance(c_.func, ast.Attribute) and norm(c_.func.value) == "self" and c_.func.attr in f.cls.methods and
+                            any(isinstance(x_, ast.Call) and norm(x_.func) == "self.save_full_ds" for x_ in ast.walk(f.cls.methods[c_.func.attr].node)) for c_ in ast.walk(f.node)):
+            raise AnalysisError("idiom changed: %s persists its result through a helper method" % mname)
         elif not sv or not g.completes_before(sv[0][0].id, g.exit.id, feasible=fl.feasible):
             rr.bad(ctx.finding(rid, f, f.node, "%s does not persist its result through save_full_ds(new_ds) when a data name is set" % mname, construct="no-save " + mname), "%s saves" % mname)
         elif sv[0][1].args and norm(sv[0][1].args[0]) in ("self._full_ds", "self.full_ds", "self.last_ds"):
